@@ -19,14 +19,15 @@ from harness import histrun
 from harness import k1trace
 
 # bits of the code the Coq side returns for a trace (0 = everything agrees)
-B_ACCEPT, B_UNDO_INC, B_STORED, B_UNDO, B_STATE, B_SC1, B_SC2, B_MUNDO, B_MREDO = 1, 2, 4, 8, 16, 32, 64, 128, 256
+B_ACCEPT, B_UNDO_INC, B_STORED, B_UNDO, B_STATE, B_SC1, B_SC2, B_MUNDO, B_MREDO, B_NOTHM = 1, 2, 4, 8, 16, 32, 64, 128, 256, 512
 CODE_DEF = '''
 Definition b2z (b : bool) (k : Z) : Z := if b then 0 else k.
 Definition trace_code (tr : trace TT) : Z :=
   let w := walk TT tr in
   let ur := undo_redo_code TT tr in
   b2z (w_accepted w) 1 + b2z (w_undo_inc w) 2 + b2z (w_stored w) 4 + b2z (w_undo w) 8 + b2z (w_state w) 16 +
-  b2z (w_sc1 w) 32 + b2z (w_sc2 w) 64 + ur.
+  b2z (w_sc1 w) 32 + b2z (w_sc2 w) 64 + ur +
+  b2z (bundle_ok2 OO (state_of_snapshot TT (tr_start tr)) (map fst (tr_events tr))) 512.
 '''
 
 WEIGHTS = {'rencol': 6, 'rmcol': 6, 'rmtable': 3, 'rentable': 4, 'addformula': 8, 'modtype': 5, 'modformula': 5,
@@ -492,21 +493,56 @@ def pending_structure(events):
   return False
 
 
+def eval_z(ctx, name, imports, fn, cases, shard=40, extra_defs='', timeout=900):
+  """Like core.Ctx.run_cases, but returns the Z value of `fn case` for every case (one coqc per shard, 8 at a time)."""
+  import re
+  import subprocess
+  paths = []
+  for k in range(0, len(cases), shard):
+    part = cases[k:k + shard]
+    path = os.path.join(ctx.work, 'zcases_%s_%d.v' % (name, k // shard))
+    with open(path, 'w') as f:
+      f.write('From Coq Require Import ZArith List Bool String.\nImport ListNotations.\n')
+      for imp in imports:
+        f.write('Require Import %s.\n' % imp)
+      f.write('Open Scope Z_scope.\n' + extra_defs + '\n')
+      f.write('Definition the_cases := [\n  ' + ';\n  '.join(part) + '\n].\n')
+      f.write('Goal True. idtac "@@RESULT". exact I. Qed.\n')
+      f.write('Eval vm_compute in (map (%s) the_cases).\n' % fn)
+    paths.append((k, len(part), path))
+  out_vals = [None] * len(cases)
+  pending, running = list(paths), []
+  def start(item):
+    k, n, path = item
+    p = subprocess.Popen(['timeout', str(timeout), 'coqc', '-w', '-notation-overridden,-deprecated',
+                          '-Q', os.path.join(core.COQ, 'theories'), 'Grist', '-Q', os.path.join(core.COQ, 'gen'), 'GristGen',
+                          path], stdout=subprocess.PIPE, stderr=subprocess.STDOUT, cwd=ctx.work)
+    return (k, n, path, p)
+  while pending or running:
+    while pending and len(running) < 8:
+      running.append(start(pending.pop(0)))
+    k, n, path, p = running.pop(0)
+    out = p.communicate()[0].decode('utf8', 'replace')
+    if p.returncode != 0 or '@@RESULT' not in out:
+      for (_k, _n, _p, q) in running:
+        q.kill()
+      raise core.TieBroken('cases file %s does not evaluate: %s' % (os.path.basename(path), out[-1500:]))
+    tail = out.split('@@RESULT', 1)[1]
+    m = re.search(r'=\s*\[(.*?)\]\s*:\s*list Z', tail, re.S)
+    if not m:
+      raise core.TieBroken('cannot parse result of %s: %s' % (os.path.basename(path), tail[-500:]))
+    vals = [int(t.strip().replace('%Z', '').replace('(', '').replace(')', '')) for t in m.group(1).split(';') if t.strip()]
+    if len(vals) != n:
+      raise core.TieBroken('result of %s has %d values for %d cases' % (os.path.basename(path), len(vals), n))
+    out_vals[k:k + n] = vals
+  return out_vals
+
+
 def eval_codes(ctx, I, terms):
-  """code per trace (0 = all agree)."""
+  """code per trace: bits 1..256 = disagreements (see B_*), bit 512 = the hypotheses of the proved theorem
+  (bundle_ok2: doc actions, then calc deltas, then the flush; lossless; SC2) do NOT hold for this trace."""
   if not terms:
     return []
   defs = I.defs() + CODE_DEF
-  bad = ctx.run_cases('k1', k1trace.IMPORTS, 'fun tr => Z.eqb (trace_code tr) 0', terms, shard=40, extra_defs=defs,
-                      timeout=600)
-  codes = [0] * len(terms)
-  if bad:
-    # second pass, on the failing traces only: one case per (trace, bit)
-    bits = (1, 2, 4, 8, 16, 32, 64, 128, 256)
-    tdefs = ''.join('Definition ftr%d : trace TT := %s.\n' % (k, terms[i]) for k, i in enumerate(bad))
-    cases = ['(ftr%d, %d)' % (k, bit) for k in range(len(bad)) for bit in bits]
-    b2 = ctx.run_cases('k1bits', k1trace.IMPORTS, 'fun p => Z.eqb (Z.land (trace_code (fst p)) (snd p)) 0', cases,
-                       shard=len(cases) + 1, extra_defs=defs + tdefs, timeout=900)
-    for j in b2:
-      codes[bad[j // len(bits)]] |= bits[j % len(bits)]
-  return codes
+  return eval_z(ctx, 'k1', k1trace.IMPORTS + ['Grist.Proofs.ActionLog_proofs', 'Grist.Proofs.ActionLog_calc'],
+                'trace_code', terms, shard=40, extra_defs=defs)
